@@ -56,6 +56,13 @@ Next ==
   \/ \E i \in 1..N : Alter("shiftValComm", i, "none", [sent EXCEPT ![i].val = <<"val+", i>>, ![i].comm = <<"comm-", i>>])
   \/ \E i \in 1..N : Len(sent[i].others) > 0 /\ Alter("shiftCommOther", i, "none", [sent EXCEPT ![i].comm = <<"comm+", i>>, ![i].others[1] = <<"oth-", i, 1>>])
   \/ \E i \in 1..(N - 1) : Len(sent[i].others) = 0 /\ Alter("shiftNext", i, "none", [sent EXCEPT ![i].comm = <<"comm+", i>>, ![i + 1].val = <<"val-", i + 1>>])
+  \* fields left out of the message (null after decoding), and numbers negated in memory (the commitment hash is taken over
+  \* the bytes of the numbers, which do not show the sign)
+  \/ \E i \in 1..N : Alter("valueNil", i, "none", [sent EXCEPT ![i].val = <<"nil", 0>>])
+  \/ \E i \in 1..N : Alter("commitmentNil", i, "none", [sent EXCEPT ![i].comm = <<"nil", 0>>])
+  \/ \E i \in 1..N : Len(sent[i].others) > 0 /\ Alter("otherNil", i, "none", [sent EXCEPT ![i].others[1] = <<"nil", 0, 0>>])
+  \/ \E i \in 1..N : Alter("negate", i, "none", [sent EXCEPT ![i].val = <<"neg", i>>, ![i].comm = <<"negcomm", i>>])
+  \/ Alter("nonceNil", 1, "none", sent) \/ Alter("respNil", 1, "none", sent)
   \/ \E i \in 1..(N - 1) : Alter("swap", i, "none", [sent EXCEPT ![i] = sent[i + 1], ![i + 1] = sent[i]])
   \/ \E i \in 1..N : N > 1 /\ Alter("drop", i, "none", RemoveAt(sent, i))
   \/ \E i \in 1..N : Alter("duplicate", i, "none", Append(sent, sent[i]))
@@ -63,7 +70,8 @@ Spec == Init /\ [][Next]_vars
 
 \* KeyshareResponse transcribed
 AllKnown == \A i \in 1..N : sent[i].key = "none" \/ sent[i].key \in ServerKeys
-Released == AllKnown /\ sent = Committed                       \* H injective: recomputed hash = hW iff equal
+HeaderOK == alt.name \notin {"nonceNil", "respNil"}            \* nonce and the user's response are present
+Released == AllKnown /\ HeaderOK /\ sent = Committed           \* H injective: recomputed hash = hW iff equal
 ServerCtx == IF ctxSent = 0 THEN 1 ELSE ctxSent
 Contrib(e, i) == <<e.val, IF e.key = "none" THEN e.comm ELSE <<"total", e.comm, e.key>>, e.others>>
 ServerChallenge == <<ServerCtx, [i \in 1..N |-> Contrib(sent[i], i)], "nonce", flag>>
